@@ -22,8 +22,10 @@ import re
 import vlib
 
 # The deviations of the coded decoders that the design layer of Rlp.tla models (and that are listed as known findings).
-# When one is repaired in /repo, remove its name here and in spec/Rlp_Mon.cfg / spec/Rlp_Trace.cfg.
-DEVIATIONS = '{"optfix", "expelled", "sortedset", "dsmap"}'
+# When one is repaired in /repo, remove its name here ("dsmap_sorted" instead of "dsmap" when only EvidenceDoubleSign's
+# encoder is made deterministic); the corresponding known findings then stop being hit.  VERIF_C14_DEVIATIONS overrides
+# the set for experiments on a patched scratch tree.
+DEVIATIONS = os.environ.get("VERIF_C14_DEVIATIONS") or '{"optfix", "expelled", "sortedset", "dsmap"}'
 
 CFG = """SPECIFICATION Spec
 CONSTANTS
@@ -195,6 +197,13 @@ def generate(ctx):
     ctx.note("behaviours: %d witnesses, %d design counterexample groups (%d cases), %d generic batches (%d cases), %d typed groups (%d cases, %d real objects)" % (
         nw, ncex, len(cexkeys), ngen, len(generic), len(groups), sum(len(g) for g in groups.values()), len(seeds)))
     ctx.cov["types"] = len({b["ty"] for b in behs if b["ty"] != "generic"})
+    ops = {}
+    for b in behs:
+        for k in b["cases"]:
+            op = k["mut"].split("@")[0] if k["mut"] else "verbatim"
+            ops[op] = ops.get(op, 0) + 1
+    ops["driver-side random (flip/byte/truncate/random bytes)"] = sum(b.get("rnd", 0) for b in behs)
+    ctx.cov["cases_per_mutation_operator"] = ops
     return behs
 
 
@@ -203,7 +212,7 @@ def judge(ctx, behs, selftest_too=False):
     bpath = ctx.path("behaviours.ndjson")
     vlib.write_ndjson(bpath, behs)
     trace = ctx.path("trace.ndjson")
-    info = ctx.drive("rlp", trace, behaviours=bpath, timeout=1800)
+    info = ctx.drive("rlp", trace, behaviours=bpath, timeout=1800, max_restarts=2000)
     ncases = sum(len(b["cases"]) + b.get("rnd", 0) for b in behs)
     ctx.cov["traces_validated_against_impl"] += len(behs)
     ctx.cov["evaluations"] += ncases
@@ -211,7 +220,7 @@ def judge(ctx, behs, selftest_too=False):
     seedfile = {"seeds.ndjson": DUMMY_SEED}
     # T (verdict): property-layer monitor
     result, _ = vlib.monitor(ctx, "Rlp_Mon", "Rlp_Mon.cfg", trace, behaviours=bpath, replay_meta={"driver": "rlp"}, files=seedfile,
-                             xss="512m", timeout=3000)
+                             xss="512m", timeout=3000, constants={"Deviations": DEVIATIONS})
     # a process abort (os.Exit, fatal error) while decoding is a failure of "never panics"
     for a in info["aborts"]:
         ctx.report("C14/NoPanic/process_abort", vlib.save_behaviour_replay(ctx, "C14/NoPanic/process_abort", bpath, a["b"], {}), a)
@@ -236,7 +245,7 @@ def judge(ctx, behs, selftest_too=False):
     ctx.cov["entry_calls"] = sum(len(e.get("ent", [])) for e in events if e.get("ev") == "dec")
     # T (drift): conformance to the design layer
     conf = ctx.tlc("Rlp_Trace", "Rlp_Trace.cfg", name="Conf", files=dict(seedfile, **{"trace.ndjson": trace}), workers=1,
-                   timeout=3000, count=False, xss="512m", check_deadlock=False)
+                   timeout=3000, count=False, xss="512m", check_deadlock=False, constants={"Deviations": DEVIATIONS})
     verdicts = [v for v in conf.printed if isinstance(v, dict) and v.get("kind") in ("ACCEPTED", "REJECTED")]
     if verdicts and verdicts[0]["kind"] == "ACCEPTED":
         ctx.cov["conformance"] = "accepted %d events" % verdicts[0]["events"]
@@ -261,7 +270,7 @@ def selftest(ctx, trace):
     p = ctx.path("trace_corrupt.ndjson")
     vlib.write_ndjson(p, ev[:bad + 20])
     conf = ctx.tlc("Rlp_Trace", "Rlp_Trace.cfg", name="Conf_selftest", files={"seeds.ndjson": DUMMY_SEED, "trace.ndjson": p}, workers=1,
-                   timeout=900, count=False, xss="512m", check_deadlock=False)
+                   timeout=900, count=False, xss="512m", check_deadlock=False, constants={"Deviations": DEVIATIONS})
     rej = [v for v in conf.printed if isinstance(v, dict) and v.get("kind") == "REJECTED"]
     lines = [b[0] for b in rej[0]["bad"]] if rej else []
     ctx.cov["binding_selftest"] = "flipped verdict at line %d; conformance reported lines %s" % (bad, lines)
